@@ -681,6 +681,7 @@ class WriteFaults(Engine):
             if expect_refusal:
                 res.probe("refusal_expected")
             before = self._tree(outdir, logfile)
+            log_was_link = bool(logfile) and os.path.islink(logfile)
             level = scenario["level"]
 
             def hook(invocation: Dict[str, Any]) -> None:
@@ -718,6 +719,10 @@ class WriteFaults(Engine):
                                 f"{listing}", sig=f"C20-d:refused-but-modified:{level}")
                 else:
                     res.probe("refused_and_untouched")
+            elif log_was_link:
+                # the logger follows a symlink at the log path and creates its target next to it: whether that
+                # new file still counts as "the log file" is not something the statement settles either way
+                res.probe("log_path_was_symlink")
             else:
                 if status.startswith("raised:AntismashInputError") and ("aborting for safety" in status
                                                                        or "not a directory" in status
